@@ -56,7 +56,7 @@ class Report:
 
     def fail(self, rule, sig, site, what, path=None):
         """sig: stable signature (no line numbers) used for the known-findings key."""
-        key = '%s|%s' % (rule, sig)
+        key = ('%s|%s' % (rule, sig)).replace(' ', '%20')
         self.obligations.append((rule, sig, False, what))
         rec = {'property': self.pid, 'rule': rule, 'rule_text': self.rules.get(rule, ''), 'key': key, 'site': site,
                'what': what, 'path': path or []}
